@@ -26,6 +26,8 @@ pub struct SgenCfg {
     pub uuid_nonstring: bool,
     pub unions: bool,
     pub max_fields: usize,
+    /// weight the root strongly towards a record (container-file profile)
+    pub root_record: bool,
 }
 
 impl SgenCfg {
@@ -45,6 +47,7 @@ impl SgenCfg {
             uuid_nonstring: true,
             unions: true,
             max_fields: 6,
+            root_record: false,
         }
     }
     pub fn decorated() -> Self {
@@ -379,7 +382,7 @@ impl<'c, 'd> Gen<'c, 'd> {
             if deep { 0 } else { 3 },
             if deep { 0 } else { 3 },
             if deep || !self.cfg.unions { 0 } else { 4 },
-            if deep { 0 } else if root { 8 } else { 4 },
+            if deep { 0 } else if root && self.cfg.root_record { 60 } else if root { 8 } else { 4 },
             2,
             2,
             if can_ref { 3 } else { 0 },
